@@ -36,6 +36,9 @@ import Gama.Lemmas.ExportNet
 import Gama.Lemmas.ExportQuant
 import Gama.Lemmas.C06GN
 import Gama.Lemmas.ExportParseNeg
+import Gama.Lemmas.ExportLoader
+import Gama.Lemmas.ExportObsWF
+import Gama.Lemmas.ExportRerunWitness
 namespace Gama.Props.C13Rerun
 open Gama Gama.Lin Gama.RA Gama.Gen.Obsdh Gama.C06RA Gama.TL Gama.Rerun Gama.Export
 
@@ -54,7 +57,7 @@ theorem C13_rerun_sites :
     (index fields, `solve()`, `residuals()`, `revised_obs_`) is the first run's; no test asks there.
     (`hred`: an observation no branch of `refine_obsdh_reductions` applies to carries no reduction — true of every state
     reached from parsed observations, whose reduction is the constructor's 0, as long as `test_xyz()` is not lost.) -/
-theorem C13_rerun_zero_iterations (E : Env ℝ) (maxIter : Nat) (s s' : St ℝ) (it : Bool)
+theorem C13_rerun_zero_iterations (E : RA.Env ℝ) (maxIter : Nat) (s s' : St ℝ) (it : Bool)
     (h : refineAdjustment E maxIter s = some (s', true, it))
     (hred : ∀ o ∈ s'.obs, curRed s'.σ s'.xyz o = none → o.red = 0) (m : Nat) :
     start s'.σ s'.xyz (s'.obs.map fresh) = ⟨s'.σ, s'.xyz, s'.obs, 0⟩ ∧
@@ -123,6 +126,35 @@ theorem C13_readjustment_identical_real {K' : Type} {R Rd : K' → Prop} (C : Co
     exact (rerun_zero (peEnv alg (L.frame n) ra fuel) maxIter _ s' it hrun hred m).2.1
   · rw [(hcanon n').1, hdesc.1]; rfl
 
+/-- **the document level WITHOUT `Loader` / `Describes` hypotheses** (round 13): the CONCRETE loader `docLoader cv` (PD order = point
+    list, ids ↦ positions, `OD` in cluster / element order with the classes and `from_dh` / `to_dh`; `cv` = the conversions the
+    loop does not touch) and the network `export_xml` reads in the state `s'`, `unload n s'.σ` = the parsed network with the
+    coordinates of `PD`.  gama-local on `n` stopped normally in `s'`; `n` is well-formed with every point active (true of every
+    re-imported network: the export skips the others); the loop left alone what it leaves alone (`SameShape`: statuses, zeros of
+    missing groups, `xNorthAngle`, `test_xyz()`, the observations up to reductions) and — the one condition that is NOT
+    structural — the orientations of the stand-points in `s'` are those the program computes for the exported document
+    (`SameShape.ori`: the export contains no orientation; for a network without directions the clause is about unused numbers).
+    Then: the exported document is accepted and read back as `unload n s'.σ` itself (`Describes` is `describes_unload`, `Net.WF`
+    is `unload_WF`: proved, not assumed), and gama-local on it does ZERO iterations and reports the first run's adjustment -/
+theorem C13_readjustment_identical_concrete {Rd : ℝ → Prop} (C : Codec ℝ) (hC : C.LawfulOn (fun _ => True))
+    (hD : C.DegLawfulOn Rd) (impl : Export.Kind → ℝ) (par0 : Params ℝ) (cv : Conv ℝ) (alg : Ls.Alg)
+    (ra : Lin.Net ℝ → (Nat → Bool) → List (DObs ℝ) → RA.Adj ℝ → Lin.Net ℝ × (Nat → Bool)) (maxIter : Nat)
+    (n : Export.Net ℝ) (s' : St ℝ) (it : Bool)
+    (hrun : runDoc (docLoader cv) alg ra cv.fuel maxIter n = some (s', true, it))
+    (hw : n.WF C (fun _ => True) Rd) (hact : ∀ p ∈ n.points, p.active = true) (hs : SameShape cv n s')
+    (hred : ∀ o ∈ s'.obs, curRed s'.σ s'.xyz o = none → o.red = 0) (m : Nat) :
+    parseNet C impl par0 (exportNet C (unload n s'.σ)) = .ok (unload n s'.σ) ∧
+    runDoc (docLoader cv) alg ra cv.fuel (m + 1) (unload n s'.σ) = some (⟨s'.σ, s'.xyz, s'.obs, 0⟩, true, false) ∧
+    report (peEnv alg ((docLoader cv).frame (unload n s'.σ)) ra cv.fuel) ⟨s'.σ, s'.xyz, s'.obs, 0⟩
+      = report (peEnv alg ((docLoader cv).frame n) ra cv.fuel) s' := by
+  obtain ⟨d1, d2, d3, d4⟩ := describes_unload cv n s' hw.nodup hs
+  refine ⟨?_, ?_, ?_⟩
+  · rw [parse_export_net C hC hD impl par0 _ (unload_WF n s'.σ hw), unload_canon n s'.σ hact]
+  · unfold runDoc
+    rw [d1, d2, d3, d4]
+    exact (rerun_zero (peEnv alg ((docLoader cv).frame n) ra cv.fuel) maxIter _ s' it hrun hred m).2.1
+  · rw [d1]; rfl
+
 /-- **n rounds, documents**: for every number k ≥ 1 of export–import rounds the network is the one of the first round
     (`canon n`), and every exported document is the first one — a corollary of the fixed-point theorem -/
 theorem C13_rounds_fixed {K : Type} {R Rd : K → Prop} (C : Codec K) (hC : C.LawfulOn R) (hD : C.DegLawfulOn Rd)
@@ -152,7 +184,7 @@ theorem C13_rounds_fixed_printer {K : Type} {C : Codec K} {D : K → Prop} {q qc
 
 /-- **n rounds, adjustments**: after a run that stopped normally, every further export–adjust round (k = 0, 1, 2, …
     further rounds) is the same run: zero iterations, the same state -/
-theorem C13_rerun_rounds (E : Env ℝ) (maxIter : Nat) (s s' : St ℝ) (it : Bool)
+theorem C13_rerun_rounds (E : RA.Env ℝ) (maxIter : Nat) (s s' : St ℝ) (it : Bool)
     (h : refineAdjustment E maxIter s = some (s', true, it))
     (hred : ∀ o ∈ s'.obs, curRed s'.σ s'.xyz o = none → o.red = 0) (m k : Nat) :
     (Nat.iterate (fun r : Option (St ℝ × Bool × Bool) =>
@@ -175,7 +207,24 @@ theorem C13_parser_wf_exceptions_remain :
       ¬ n.WF unaryCodec (fun _ => True) (fun _ => True)) := by
   exact ⟨acceptedNotWF_spec docVecDh e2_accepted, e3_not_wf⟩
 
+/-- **the observation part of `Net.WF` IS established by the parser** (open since round 3b): every observation
+    `process_distance / direction / angle / sdistance / zangle / azimuth` accept — any attribute list, any way of reading the
+    value (`toDouble`, or `deg2gon` first), any inherited stand-point / instrument height — has non-empty `from` and `to`, a
+    second target exactly when it is an angle, `fs_dh = 0` otherwise, and the class of its element.  With
+    `C13_parser_establishes_wf_partial` (parameters, ids) and `C13_parser_cov_wf` (covariance shape) what remains of `Net.WF` for
+    parser output are exactly the two exceptions above (E2, E3) and the cluster-level clauses that mention them -/
+theorem C13_parser_establishes_obs_wf {K : Type} (F : NumFmt K) (rdVal : String → Option K) (cf : String) (cdh impl : K)
+    (k : Export.Kind) (as : Attrs) (o : Export.Obs K) (h : parseObsV F rdVal cf cdh impl k as = .ok o) : o.WF F ∧ o.kind = k :=
+  parseObsV_wf F rdVal cf cdh impl k as o h
+
 /-! ### non-vacuity -/
+
+/-- the hypothesis of `C13_parser_establishes_obs_wf` is met by an angle element with all its attributes (and refused without `fs`) -/
+example : (∃ o, parseObs strFmt "S" "0" "7" .angle [(.bs, "B"), (.fs, "C"), (.val, "100"), (.fs_dh, "1.7")] = .ok o) ∧
+    parseObs strFmt "S" "0" "7" .angle [(.bs, "B"), (.val, "100")] = .error .missingSecondTarget := by
+  constructor
+  · exact ⟨_, rfl⟩
+  · rfl
 
 /-- the hypotheses of `C13_rerun_zero_iterations` hold on C06's slope-distance instance (`Ex`: a 13 m slope distance to a
     target 12 m above its mark, reduction −8 m stored): the run stops normally, the observation carries a reduction a
@@ -203,6 +252,27 @@ example : ∃ f0 : Nat, ∀ fuel, f0 ≤ fuel →
   · rw [hst]; show (13 : ℝ) + 0 = 13; norm_num
   · rw [hst]; show (13 : ℝ) + -8 = 5; norm_num
 
+/-- **NON-degenerate evaluated instance of `C13_rerun_zero_iterations_project_equations`** (round 13): b-W7b's levelling
+    network `Ex.netWobs` over ℝ (A fixed, B constrained, C free; a correlated cluster of height differences with one switched
+    off, an uncorrelated one; inconsistent right-hand side (1, 2, 4) mm, residuals (3/11, 6/11, −2/11)): `project_equations()`
+    evaluates (`peO`), envelope / cholesky / gso answer (`∃ a, netSolve … = .ok a`: the answer is known through
+    `C02_net_answered_iff_resolves`, not as a literal array), `TestLinearization` of ANY such answer says "no" (height
+    differences have no positional misclosure), so the run of gama-local with the REAL adjustment stops normally — the
+    hypotheses `h`, `hred` hold — and the theorem applied to it: the re-run from the fresh observations does zero iterations
+    and reports `PE.projectEquations` + `netSolve` of the same network -/
+example (alg : Ls.Alg) (halg : alg ≠ .svd)
+    (ra : Lin.Net ℝ → (Nat → Bool) → List (DObs ℝ) → RA.Adj ℝ → Lin.Net ℝ × (Nat → Bool)) (fuel maxIter m : Nat) :
+    ∃ s', runLocal (peEnv alg C06NZ.Ex.netWobs ra fuel) (maxIter + 1) σW xyzW obsW = some (s', true, false) ∧
+      runLocal (peEnv alg C06NZ.Ex.netWobs ra fuel) (m + 1) s'.σ s'.xyz (s'.obs.map fresh)
+        = some (⟨s'.σ, s'.xyz, s'.obs, 0⟩, true, false) ∧
+      ∃ np u a, PE.projectEquations (withState C06NZ.Ex.netWobs s'.σ s'.obs) = .ok (np, u) ∧ Ls.Net.netSolve alg np = .ok a ∧
+        report (peEnv alg C06NZ.Ex.netWobs ra fuel) ⟨s'.σ, s'.xyz, s'.obs, 0⟩
+          = some ⟨u.net.idx, a.x.toList, a.r.toList, PE.revisedObs u.net⟩ := by
+  obtain ⟨s', h, _, _, hred, _⟩ := netWobs_run alg halg ra fuel maxIter
+  obtain ⟨h2, np, u, a, hp, hs, hr, _, _⟩ :=
+    C13_rerun_zero_iterations_project_equations alg C06NZ.Ex.netWobs ra fuel (maxIter + 1) σW xyzW obsW s' false h hred m
+  exact ⟨s', h, h2, np, u, a, hp, hs, hr⟩
+
 /-- `peEnv` on the EMPTY network (DEGENERATE: the only network on which `PE.projectEquations` / `netSolve` evaluate by
     `rfl` over ℝ; an evaluated non-degenerate PE ∘ netSolve instance exists over ℚ only, `PE.Ex.netW`): the run stops
     normally with zero iterations, so the hypotheses of `C13_rerun_zero_iterations_project_equations` hold together -/
@@ -215,6 +285,15 @@ example : runLocal (peEnv .env emptyFrame (fun n z _ _ => (n, z)) 0) 3 Ex.σ Ex.
   have ha : peAdjust .env emptyFrame Ex.σ Ex.xyz [] = some ⟨IdxState.init, [], [], []⟩ := rfl
   simp only [runLocal, start, refineAdjustment, loop, refineTests, runTests, runTest, peEnv, ha, refineObsdh, obsdhFrom, ht,
     Option.map_some, lt_self_iff_false, decide_false]
+
+/-- `SameShape` is satisfiable by a state that MOVED (levelling: `B` 110 → 110.002 after two iterations), the network
+    `export_xml` reads then has the moved height, and `Describes` — a hypothesis in round 9 — holds of it by `describes_unload`
+    (the run itself, `hrun`, is witnessed separately on `Ex.netWobs`: `Lemmas/ExportRerunWitness.lean`) -/
+example : SameShape cvId levNet levState ∧
+    (unload levNet levState.σ).points.map (·.z) = [some 100, some (110 + 2 / 1000)] ∧
+    Describes (docLoader cvId) levNet (unload levNet levState.σ) levState :=
+  ⟨levState_sameShape, levState_unload,
+   describes_unload cvId levNet levState levNet_nodup levState_sameShape⟩
 
 /-- `rounds` on a concrete partial round function: 0 ↦ 5, 5 ↦ 5: every k ≥ 1 gives 5 -/
 example : (List.range 4).map (fun k => rounds (fun n : Nat => if n = 7 then Except.error "refused" else Except.ok 5) (k + 1) 0)
